@@ -178,7 +178,8 @@ def export_shapes():
 
 
 ODD_NAMES = ["a b", "let", "and", "1x", "x.y", "A#b", "par(en", "semi;c", ".def_0", ".def_1", "__x0", "true", "Int", "_", "!", "as",
-             "forall", "exists", "a-b", "p|q", "x+y", "ToReal", "Array", "BV", "True", "xor", "Real", "push", "pop", "assert", "exit"]
+             "forall", "exists", "a-b", "p|q", "x+y", "ToReal", "Array", "BV", "True", "xor", "Real", "push", "pop", "assert", "exit",
+             "caf\u00e9", "x\u00b2", "n\u03b1", "\u00e9t\u00e9"]
 
 
 # ------------------------------------------------------------------------------------------------ export + round trip
